@@ -7,9 +7,16 @@ PALETTE = ["é中 ✓", "naïve — café", "λ→β", "日本語"]
 _AMB = {"spaced": {S: " ", O: " "}, "compact": {S: " ", O: ""}, "lines": {S: "\n", O: "\n"}}
 
 
+import re as _re
+_SECOND = _re.compile(r"\b([cdm])([12])\b")
+
+
 def render_gen(d: dict, seed: int = 0) -> str:
     sep = _AMB[d["amb"]]
     fills = {f["slot"]: f["text"] for f in d.get("fills", [])}
+    if len(fills) > 1:          # the comments of the second filled gap get wordings of their own (c3, c4, d3, m3, m4)
+        last = max(fills)
+        fills[last] = _SECOND.sub(lambda m: m.group(1) + str(int(m.group(2)) + 2), fills[last])
     parts = []
     for i, t in enumerate(d["toks"], start=1):
         if t in (S, O):
